@@ -64,7 +64,9 @@ SKIP_NONSTR = "skip_nonstr"
 MULTI_NESTED_KBI = "multi_nested_kbi"
 pg.FLATTEN[SKIP_NONSTR] = (pg.SKIP,)
 pg.FLATTEN[MULTI_NESTED_KBI] = (pg.ERROR, pg.KBI)
-KINDS = pg.ALL_KINDS + (SKIP_NONSTR, MULTI_NESTED_KBI)
+MULTI_EMPTY = "multi_empty"
+pg.FLATTEN[MULTI_EMPTY] = (pg.ERROR,)  # nothing inside: the MultipleExceptions itself is the error
+KINDS = pg.ALL_KINDS + (SKIP_NONSTR, MULTI_NESTED_KBI, MULTI_EMPTY)
 _base_perform = pg.perform
 
 
@@ -74,6 +76,12 @@ def _perform(case, ctx, stage, kind):
         ctx.raised.append((stage, kind, "%s!%s" % (stage, kind)))
         ctx.xlog.append(("raise", stage, kind))
         case.skipTest(42)
+    if kind == MULTI_EMPTY:
+        from testtools.runtest import MultipleExceptions
+
+        ctx.raised.append((stage, kind, "%s!%s" % (stage, kind)))
+        ctx.xlog.append(("raise", stage, kind))
+        raise MultipleExceptions()  # (a composite whose parts all turned out fine, raised anyway)
     if kind == MULTI_NESTED_KBI:
         # a MultipleExceptions one of whose constituents is itself a MultipleExceptions carrying an
         # interrupt (what a composite fixture built from composite parts raises)
